@@ -286,8 +286,63 @@ static void op_e2rb(int argc, char **argv) {
 	fputc('\n', OUT);
 }
 
+/* f2rt <a0> <a1> <cyc> : fp2_write_bin / fp2_read_bin round trip of an element (made unitary with fp2_conv_cyc when cyc = 1), in the
+ * packed and in the plain format ;  f2rb <hex> : fp2_read_bin of an arbitrary string and the library's own re-encoding (C07) */
+static void op_f2rt(int argc, char **argv) {
+	if (argc < 4) { fprintf(OUT, "bad-args\n"); return; }
+	fp2_t a, b; fp2_null(a); fp2_null(b); fp2_new(a); fp2_new(b);
+	uint8_t bin[2 * RLC_FP_BYTES + 8];
+	int caught = 0;
+	fp_tokx(a[0], argv[1]); fp_tokx(a[1], argv[2]);
+	RLC_TRY { if (parse_int(argv[3])) fp2_conv_cyc(a, a); } RLC_CATCH_ANY { caught = 1; }
+	if (take_err() || caught) { fprintf(OUT, "err\n"); return; }
+	fprintf(OUT, "x="); fp2_printx(a);
+	fprintf(OUT, " cyc=%d", fp2_test_cyc(a));
+	for (int pack = 1; pack >= 0; pack--) {
+		int size = fp2_size_bin(a, pack);
+		fprintf(OUT, " size%d=%d enc%d=", pack, size, pack);
+		memset(bin, 0xEE, sizeof(bin)); caught = 0;
+		RLC_TRY { fp2_write_bin(bin, size, a, pack); } RLC_CATCH_ANY { caught = 1; }
+		if (take_err() || caught || size < 0 || size > 2 * RLC_FP_BYTES) { fprintf(OUT, "err dec%d=err", pack); continue; }
+		bytes_print(bin, size);
+		if (bin[size] != 0xEE) fprintf(OUT, "!WROTE-OUTSIDE");
+		fprintf(OUT, " dec%d=", pack);
+		memset(b, 0xA5, sizeof(fp2_t)); caught = 0;
+		RLC_TRY { fp2_read_bin(b, bin, size); } RLC_CATCH_ANY { caught = 1; }
+		if (take_err() || caught) fprintf(OUT, "err"); else fp2_printx(b);
+	}
+	fputc('\n', OUT);
+}
+static void op_f2rb(int argc, char **argv) {
+	if (argc < 2) { fprintf(OUT, "bad-args\n"); return; }
+	static uint8_t buf[4 * RLC_FP_BYTES + 16], re[4 * RLC_FP_BYTES + 16];
+	int n = bytes_parse(buf, sizeof(buf), argv[1]);
+	fp2_t a; fp2_null(a); fp2_new(a);
+	char *res[2] = { NULL, NULL }; size_t rl[2];
+	FILE *save = OUT;
+	for (int v = 0; v < 2; v++) {
+		int caught = 0;
+		if (v == 0) fp2_zero(a); else memset(a, 0xA5, sizeof(fp2_t));
+		RLC_TRY { fp2_read_bin(a, buf, n); } RLC_CATCH_ANY { caught = 1; }
+		int e = take_err() || caught;
+		OUT = open_memstream(&res[v], &rl[v]);
+		if (e) fprintf(OUT, "err");
+		else {
+			fp2_printx(a); fprintf(OUT, " re=");
+			caught = 0;
+			RLC_TRY { fp2_write_bin(re, n, a, n == RLC_FP_BYTES + 1); } RLC_CATCH_ANY { caught = 1; }
+			if (take_err() || caught) fprintf(OUT, "err"); else bytes_print(re, n);
+		}
+		fclose(OUT); OUT = save;
+	}
+	fprintf(OUT, "%s", res[0]);
+	if (strcmp(res[0], res[1]) != 0) fprintf(OUT, " DEST-DEPENDENT[%s]", res[1]);
+	free(res[0]); free(res[1]);
+	fputc('\n', OUT);
+}
+
 const op_t ops_ep2[] = {
 	{"ep2_param", op_ep2_param}, {"e2b", op_e2b}, {"e2u", op_e2u}, {"e2m", op_e2m}, {"e2s", op_e2s},
-	{"e2l", op_e2l}, {"e2d", op_e2l}, {"e2la", op_e2l}, {"e2da", op_e2l}, {"e2pt", op_e2pt}, {"e2wb", op_e2wb}, {"e2rb", op_e2rb},
+	{"e2l", op_e2l}, {"e2d", op_e2l}, {"e2la", op_e2l}, {"e2da", op_e2l}, {"e2pt", op_e2pt}, {"e2wb", op_e2wb}, {"e2rb", op_e2rb}, {"f2rt", op_f2rt}, {"f2rb", op_f2rb},
 	{NULL, NULL}
 };
